@@ -69,7 +69,7 @@ mut("C01", "failed-sync-recorded-as-done", PO, """                    "Failed to
                 keyspace_tracker.set_keyspace(""")
 mut("C01", "only-first-fetch-chunk", PO, "        .chunks(MAX_NUMBER_OF_DOCS_PER_FETCH)\n", "        .chunks(MAX_NUMBER_OF_DOCS_PER_FETCH)\n        .take(1)\n")
 mut("C01", "fetch-chunks-exact", PO, "        .chunks(MAX_NUMBER_OF_DOCS_PER_FETCH)\n", "        .chunks_exact(MAX_NUMBER_OF_DOCS_PER_FETCH.min(modified.len().max(1)))\n")
-mut("C01", "at-most-ten-keyspaces-per-poll", PO, "    for keyspace in diff {\n        let permits = permits.clone();", "    for keyspace in diff.into_iter().take(MAX_CONCURRENT_REQUESTS) {\n        let permits = permits.clone();")
+# (removed: "at most ten keyspaces per poll" only spreads a repair over several cycles; the statement sets no bound on their number)
 # --- C02
 mut("C02", "F11-reverted-set", AC, "        docs.retain(|doc| seen_ids.insert(doc.id()));", "        docs.retain(|doc| seen_ids.insert(doc.id()) || true);")
 mut("C02", "bulk-error-folds-all", AC, "                .filter(|entry| successful_ids.contains(&entry.0));\n\n            for (doc_id, ts) in successful_entries {\n                self.state.insert_with_source", "                .filter(|entry| successful_ids.contains(&entry.0) || true);\n\n            for (doc_id, ts) in successful_entries {\n                self.state.insert_with_source")
